@@ -11,7 +11,7 @@ use std::collections::HashSet;
 const MAX_LEN: usize = 40;
 
 macro_rules! explore {
-	($m:ident, $f:expr, $ctx:expr, $refs:expr, $depth:expr, $level:expr) => {{
+	($m:ident, $f:expr, $ctx:expr, $refs:expr, $depth:expr, $level:expr, $seed_only:expr) => {{
 		use crate::fam::$m::{c04_applicable, c04_input, c04_step, AOp, BufTy, MOp, SOp};
 		let f: Family = $f;
 		let fr = FamRefs::new($refs, f);
@@ -72,7 +72,7 @@ macro_rules! explore {
 		}
 		// ---- initial states
 		let mut total = Report::new();
-		total.count(&format!("{}_operations", f.name()), ops.len() as u64);
+		total.count(&format!("{}_operations", f.name()), if $seed_only { 0 } else { ops.len() as u64 });
 		let paths = domains::paths(&domains::seg_alphabet(f, 0), 2);
 		let auth_opts: Vec<Option<Vec<u8>>> = auths.iter().map(|a| a.map(domains::b)).collect();
 		let refdom: Vec<Vec<u8>> = domains::references(
@@ -85,7 +85,11 @@ macro_rules! explore {
 		.into_iter()
 		.map(|(t, _)| t)
 		.filter(|t| fr.valid(Kind::RiRef, t))
+		// "seed only" passes start from the constructors' values and nothing else
+		.filter(|t| !$seed_only || t.len() <= 2)
 		.collect();
+		let paths: Vec<Vec<u8>> = paths.into_iter().filter(|p| !$seed_only || p.len() <= 1).collect();
+		let tag = if $seed_only { "seedpass_" } else { "" };
 		for ty in [BufTy::RiRefBuf, BufTy::RiBuf, BufTy::PathBuf] {
 			let mut seen: HashSet<Vec<u8>> = HashSet::new();
 			// (state, initial, history)
@@ -118,7 +122,7 @@ macro_rules! explore {
 					}
 				}
 			}
-			total.count(&format!("{}_{}_initial_states", f.name(), ty.name()), frontier.len() as u64);
+			total.count(&format!("{tag}{}_{}_initial_states", f.name(), ty.name()), frontier.len() as u64);
 			for d in 0..$depth {
 				let shards = 64usize;
 				let fref = &frontier;
@@ -176,7 +180,12 @@ macro_rules! explore {
 				}
 				let mut r = r;
 				r.info.clear();
-				total.count(&format!("{}_{}_depth{}_new_states", f.name(), ty.name(), d + 1), next.len() as u64);
+				if d + 1 < $depth {
+					total.count(&format!("{tag}{}_{}_depth{}_new_states", f.name(), ty.name(), d + 1), next.len() as u64);
+				} else {
+					// successors of the last level are judged by c04_step but not expanded or stored
+					total.count(&format!("{tag}{}_{}_depth{}_successors_judged_not_expanded", f.name(), ty.name(), d + 1), r.transitions);
+				}
 				total.merge(r);
 				frontier = next;
 				if $ctx.out_of_time() {
@@ -192,15 +201,20 @@ macro_rules! explore {
 pub fn run(ctx: &Ctx) -> Report {
 	let refs = Refs::new(&ctx.root);
 	let mut total = Report::new();
-	total.rule = "explicit-state BFS: state = buffer text of one owned type (RiRefBuf, RiBuf, PathBuf of both families); initial states = Default, from_scheme and compositions scheme x authority x PATH(2) x query x fragment; transitions = every safe mutator (5 setters, 6 path edits through path_mut, 3 authority edits through authority_mut, in-place resolve) over an argument alphabet that contains every value needing disambiguation; invariant in every reached state: no panic, UTF-8, accepted by the checked constructor of the same type and by the reference DFA, all accessors run; de-duplication on the text is exact because no handle survives a transition; successors longer than 40 bytes are cut (counted). non-trivial = distinct (type, state, operation) transition".into();
+	total.rule = "explicit-state BFS: state = buffer text of one owned type (RiRefBuf, RiBuf, PathBuf of both families); initial states = Default, from_scheme and compositions scheme x authority x PATH(2) x query x fragment (pass 1, depth d), and only the constructor values '', 's:', '/' (pass 2, depth d+1: every buffer that can be built from nothing by d safe calls, then one more call); transitions = every safe mutator (5 setters, 6 path edits through path_mut, 3 authority edits through authority_mut, in-place resolve) over an argument alphabet that contains every value needing disambiguation; invariant in every reached state: no panic, UTF-8, accepted by the checked constructor of the same type and by the reference DFA, all accessors run; de-duplication on the text is exact because no handle survives a transition; successors longer than 40 bytes are cut (counted). non-trivial = distinct (type, state, operation) transition".into();
 	let depth = ctx.pick(2usize, 3usize);
 	let level = ctx.pick(0u8, 1u8);
-	total.merge(explore!(uri, Family::Uri, ctx, refs, depth, level));
-	total.merge(explore!(iri, Family::Iri, ctx, refs, depth, level));
+	total.merge(explore!(uri, Family::Uri, ctx, refs, depth, level, false));
+	total.merge(explore!(iri, Family::Iri, ctx, refs, depth, level, false));
+	// second pass: longer histories from the values the constructors give (Default, from_scheme,
+	// the empty and the root path), i.e. every buffer that can be BUILT by <= seed_depth safe calls
+	let seed_depth = ctx.pick(3usize, 4usize);
+	total.merge(explore!(uri, Family::Uri, ctx, refs, seed_depth, 0u8, true));
+	total.merge(explore!(iri, Family::Iri, ctx, refs, seed_depth, 0u8, true));
 	total.distinct_nontrivial = total.transitions;
 	total.evaluations = total.transitions;
 	total.traces = total.transitions;
-	total.info.insert("bounds".into(), json!({"depth": depth, "alphabet_level": level, "max_text_bytes": MAX_LEN}));
+	total.info.insert("bounds".into(), json!({"depth": depth, "seed_pass_depth": seed_depth, "alphabet_level": level, "max_text_bytes": MAX_LEN}));
 	total
 }
 
